@@ -61,6 +61,7 @@ Proof.
   - destruct (top_handler (g s)); [|apply gstate_eq_refl].
     destruct (emit_sets_latch p); destruct (emit_raises p); simpl; try apply gstate_eq_refl;
       (eapply gstate_eq_trans; [apply IHp|apply gstate_eq_refl]).
+  - destruct (flags (g s) d); [apply IHp1|apply IHp2].
   - pose proof (IHp1 s) as H1. destruct (eval p1 s) as [o s']. simpl in H1.
     destruct o; try exact H1; (eapply gstate_eq_trans; [apply IHp2|exact H1]).
   - destruct (enter c s) as [s1|e s'] eqn:En.
@@ -144,6 +145,8 @@ Proof.
         split; [exact G|]. simpl. intros x Hx. unfold set_latch.
         destruct (N.eqb x h); [reflexivity|apply L; rewrite <- Hs; exact Hx]. }
       destruct (emit_raises p); [split; [reflexivity|exact A']|]. apply IHp. exact A'.
+  - pose proof A as [[_ [_ [_ E4]]] _]. rewrite <- (E4 d).
+    destruct (flags (g s1) d); [apply IHp1|apply IHp2]; exact A.
   - destruct (IHp1 s1 s2 A) as [O A1].
     destruct (eval p1 s1) as [o1 t1]; destruct (eval p1 s2) as [o2 t2]. simpl in *. subst o2.
     destruct o1; [apply IHp2; exact A1|apply IHp2; exact A1|split; [reflexivity|exact A1]].
@@ -228,6 +231,9 @@ Proof.
     destruct (emit_raises p) eqn:E.
     + destruct p; simpl in E; inversion E; subst. intros H. inversion H. auto 6.
     + intros H. apply IHp in H. exact H.
+  - destruct (flags (g s) d); intros H.
+    + apply IHp1 in H. destruct H as [H|H]; [left; apply in_or_app; left; exact H|right; exact H].
+    + apply IHp2 in H. destruct H as [H|H]; [left; apply in_or_app; right; exact H|right; exact H].
   - destruct (eval p1 s) as [o s'] eqn:E1.
     destruct o; intros H.
     + apply IHp2 in H. destruct H as [H|H]; [left; apply in_or_app; right; exact H|right; exact H].
